@@ -46,7 +46,10 @@ struct Opd { int kind; bool isnull, lval, b; long i; double d; Value* v; };
 static void mk(Opd& o, int kind, int s)
 {
   o.kind = kind;
-  o.i = in_long(s); o.d = in_double(s); o.b = in_bool(3 * s); o.isnull = in_bool(3 * s + 1); o.lval = in_bool(3 * s + 2);
+  o.i = in_long(s); o.d = in_double(s);
+#ifdef VX_FIX_B_I
+  if (s == 1) o.i = VX_FIX_B_I;       /* instance parameter: concrete integer payload of the second operand */
+#endif o.b = in_bool(3 * s); o.isnull = in_bool(3 * s + 1); o.lval = in_bool(3 * s + 2);
   switch (kind) {
   case K_BOOLEAN: o.v = new Value(Bool(o.b)); if (o.isnull) o.v->swap(Value(Value::type_boolean)); break;
   case K_INTEGER: o.v = new Value(Integer(o.i)); if (o.isnull) o.v->swap(Value(Value::type_integer)); break;
@@ -97,6 +100,9 @@ extern "C" void vx_binop()
     verif_known(KF_SHIFT_NOT_AS_DOCUMENTED, iinn && (B.i < 0 || B.i > 63 || A.i < 0));
 #endif
   }
+#ifdef VX_B_NEGATIVE
+  verif_assume(B.i < 0);          /* instance parameter: the integer payload of the second operand is negative */
+#endif
   SymExpr* e1 = new SymExpr(A.v); SymExpr* e2 = new SymExpr(B.v);
   VX_OP* op = new VX_OP(e1, e2);
   Type st = op->type(ctx);        // static type, computed from the children's static types (= their dynamic ones: induction hypothesis)
@@ -173,16 +179,29 @@ extern "C" void vx_binop()
 #endif
 #if VX_ORACLE == ORC_EXP
   if (ii) {
-    verif_assert(!thrown, "C03: integer ** integer is defined for every operand pair");
+    bool pole = !anynull && A.i == 0 && B.i < 0;
+    if (pole) verif_assert(thrown && code == EXC_RT_DIVIDE_BY_ZERO, "C03: zero to a negative power raises DIVIDE_BY_ZERO");
+    else verif_assert(!thrown, "C03: integer ** integer is defined for every operand pair");
     if (!thrown) {
       verif_assert(r->type() == Value::type_integer && r->isNull() == anynull, "C03: int ** int is an integer, null exactly when an operand is null");
+      if (!anynull && !r->isNull() && B.i < 0)
+        verif_assert(*r->integer() == (A.i == 1 ? 1 : A.i == -1 ? ((B.i & 1) ? -1 : 1) : 0), "C03: x ** -n is the integer part of the inverse power");
       if (!anynull && !r->isNull() && B.i >= 0) {
         unsigned long a = (unsigned long)A.i, v = (unsigned long)*r->integer();
         /* exact result modulo 2^64: decided on the algebraic anchor points (the general case is 64 rounds of square-and-multiply) */
         if (B.i == 0) verif_assert(v == 1UL, "C03: x ** 0 = 1");
         if (B.i == 1) verif_assert(v == a, "C03: x ** 1 = x");
+#ifndef VX_FIX_B_I
         if (B.i == 2) verif_assert(v == a * a, "C03: x ** 2 = x * x (mod 2^64)");
         if (B.i == 3) verif_assert(v == a * a * a, "C03: x ** 3 = x * x * x (mod 2^64)");
+#endif
+#ifdef VX_FIX_B_I
+        if (VX_FIX_B_I >= 0 && VX_FIX_B_I <= 64) {
+          unsigned long e = 1;
+          for (int k = 0; k < VX_FIX_B_I; k++) e *= a;      /* naive repeated product, the definition */
+          verif_assert(v == e, "C03: x ** n is the n-fold product (mod 2^64) [solo]");
+        }
+#endif
         if (A.i == 2) verif_assert(v == (B.i < 64 ? 1UL << B.i : 0UL), "C03: 2 ** n = 1 << n (mod 2^64)");
         if (A.i == 0 || A.i == 1) verif_assert(B.i == 0 || v == a, "C03: 0 ** n = 0, 1 ** n = 1");
         if (A.i == -1) verif_assert(v == ((B.i & 1) ? ~0UL : 1UL), "C03: (-1) ** n alternates");
